@@ -11,6 +11,8 @@ pub fn oracle(o: &Outcome, s: &Scen) -> Option<(String, serde_json::Value)> {
   match s.kind {
     Kind::Subject => common_order(o),
     Kind::Pipe(_) if s.name == "share_threads" => common_order(o),
+    Kind::Pipe(_) if s.name == "merge_all_threads" => flatten_oracle(o, s),
+    Kind::Pipe(_) if two_input_name(s).is_some() => linearizable(o, s, two_input_name(s).unwrap()),
     _ => None,
   }
 }
@@ -19,7 +21,20 @@ pub fn run(cfg: &Cfg, rep: &mut Report) {
   let n = cfg.n(16_000, 2_500_000);
   if cfg.mode.starts_with("fam") {
     let fam: usize = cfg.mode[3..].parse().unwrap();
-    for seed in 0..20u64 {
+    let mut hits = 0;
+    for seed in 0..3000u64 {
+      let mut r = Rng::new(seed);
+      let s = random_scen(&mut r, fam);
+      let o = run_scen(&s, seed, crate::conc::Strategy::Uniform);
+      if let Some((k, d)) = universal(&o).or_else(|| oracle(&o, &s)) {
+        hits += 1;
+        if hits <= 2 {
+          println!("seed {} {} {} {:?}", seed, k, d, s.threads);
+        }
+      }
+    }
+    println!("fam {} hits {}", fam, hits);
+    for seed in 0..0u64 {
       let mut r = Rng::new(seed);
       let s = random_scen(&mut r, fam);
       let t0 = std::time::Instant::now();
